@@ -425,6 +425,18 @@ fn update_internal(_: &UpdaterLockState, channel: Option<&str>) -> anyhow::Resul
         )
     })?;
 
+    // If this app requires signed patches, refuse to install a patch whose signature does not
+    // verify over the inflated file: it could never boot, and installing it over an already
+    // installed patch with the same number would take that patch down with it.
+    if let Some(public_key) = &config.patch_public_key {
+        let signature = patch
+            .hash_signature
+            .as_deref()
+            .context("Patch signature is missing")?;
+        let file_hash = crate::cache::signing::hash_file(&output_path)?;
+        crate::cache::signing::check_signature(&file_hash, signature, public_key)?;
+    }
+
     // We're abusing the config lock as a UpdateState lock for now.
     // This makes it so we never try to write to the UpdateState file from
     // two threads at once. We could give UpdateState its own lock instead.
